@@ -65,6 +65,7 @@ type Exec struct {
 	ovfN      int
 	bindErrors []string
 	atcallProbes map[string]int
+	atcallSeen   map[string]bool
 	noOvf      bool
 	assumedObjInv map[string]bool
 	specs     map[string]*specInst
@@ -87,7 +88,7 @@ func (x *Exec) note(s string) { x.notes[s] = true }
 
 func newExec(eng *Engine, fn *ssa.Function, fc *FuncContract) *Exec {
 	x := &Exec{eng: eng, fn: fn, fc: fc, globalSet: map[string]bool{}, arrSort: map[string]string{}, notes: map[string]bool{},
-		cellOf: map[*ssa.Alloc]*Cell{}, specUsed: map[string]bool{}, pathCap: 6000, coverDone: map[string]bool{}, specs: map[string]*specInst{}, refArrays: map[string]bool{}, recSpecs: map[string]bool{}, assumedObjInv: map[string]bool{}, atcallProbes: map[string]int{}}
+		cellOf: map[*ssa.Alloc]*Cell{}, specUsed: map[string]bool{}, pathCap: 6000, coverDone: map[string]bool{}, specs: map[string]*specInst{}, refArrays: map[string]bool{}, recSpecs: map[string]bool{}, assumedObjInv: map[string]bool{}, atcallProbes: map[string]int{}, atcallSeen: map[string]bool{}}
 	return x
 }
 
